@@ -305,3 +305,44 @@ func VH_C03_SignaturesSection() {
 		vh.Assert(g.Authority == v.Authority && bytes.Equal(g.Sig, v.Sig) && bytes.Equal(g.Signed, v.Signed), "vouched subset preserved (authority index, sig, signed)")
 	}
 }
+
+// VH_C03_C04_LargeBodies: b1/b2 bundle with two exchanges whose bodies have lengths around the 2-byte / 4-byte CBOR
+// head boundary - first body 65535 or 65536 bytes (constant filler, symbolic first/last byte), second body 1 byte,
+// so that the second response also starts at an offset just above 65536: well-formed output (independent walker,
+// index entries delimit the responses), returned count, and write -> read preserves both bodies.
+func VH_C03_C04_LargeBodies() {
+	ver := version.VersionB2
+	if vh.Choose(2) == 1 {
+		ver = version.VersionB1
+	}
+	n := 65535 + vh.Choose(2)
+	big := make([]byte, n)
+	for i := range big {
+		big[i] = 'x'
+	}
+	big[0], big[n-1] = vh.Byte("first"), vh.Byte("last")
+	small := vh.Bytes("small", 1)
+	e1 := &Exchange{Request{URL: c03MustURL("https://a/zz")}, Response{Status: 200, Header: http.Header{}, Body: big}}
+	e2 := &Exchange{Request{URL: c03MustURL("https://b/")}, Response{Status: 200, Header: http.Header{}, Body: small}}
+	b := &Bundle{Version: ver, PrimaryURL: c03MustURL("https://a/zz"), Exchanges: []*Exchange{e1, e2}}
+	var w vh.Sink
+	cnt, err := b.WriteTo(&w)
+	vh.Assert(err == nil && cnt == int64(len(w.B)), "written, count equals bytes")
+	if err != nil {
+		return
+	}
+	secs, ok := refWellFormedBundle(w.B, ver == version.VersionB1)
+	vh.Assert(ok && refIndexDelimitsResponses(w.B, secs, ver == version.VersionB1), "well-formed canonical bundle, index entries delimit the responses")
+	back, rerr := Read(bytes.NewReader(w.B))
+	vh.Assert(rerr == nil && back != nil && len(back.Exchanges) == 2, "reads back")
+	if rerr != nil || len(back.Exchanges) != 2 {
+		return
+	}
+	for _, g := range back.Exchanges {
+		if g.Request.URL.String() == "https://a/zz" {
+			vh.Assert(bytes.Equal(g.Response.Body, big), "large body preserved")
+		} else {
+			vh.Assert(bytes.Equal(g.Response.Body, small), "small body preserved and attributed to the right URL")
+		}
+	}
+}
